@@ -78,8 +78,8 @@ PROPS.update({
         prefer_json_tests=["TestHedgedRetryEvents"], replay_reps=300,
         rule=COMPOSE_RULE + "at least 3 distinct listener kinds fired and at least one of {abort, exhaustion, rejection, cache hit, fallback, timeout, nested retries}. Every listener of every builder and of the executor is registered into one recorder. TestEventsConcurrent: 2..12 executions with different scripts share one executor and its listeners; each execution's events (attributed through the context) must equal the model's prediction for its own script. TestEventsWhenWaitsAreCancelled: an execution waiting an hour for a bulkhead permit, a limiter permit or a retry delay is cancelled; rejection / retry / exhaustion listeners must stay silent. TestHedgedRetryEvents: Hedge(Retry(fn)) with a hedge that only accepts successes, so 2..4 branches of one execution share the retry policy's executor; every invocation parks and the harness lets them return one at a time in a generated order or all at once; OnRetriesExceeded at most once (exactly once with ExceededError), invocations = 1 + OnHedge + OnRetry, OnRetry <= OnRetryScheduled, one completion event; non-trivial when at least two branches were parked together and a retry was decided or the retries were exceeded.",
         assumptions=COMPOSE_ASSUMPTIONS + ["a result that reaches a retry policy after the same execution has already exhausted it (nested retries, a hedge outside) passes through unclassified: the executor's OnSuccess/OnFailure verdict is not judged against the error for such executions"]),
-    "C17": dict(pkg="./props/c17_stats", tests=[REGRESS(), T("TestStats", (8, 6000), (16, 120000)), T("TestHedgedStats", (4, 1000), (8, 15000), pkg="./props/c09_hedge"), T("TestHedgedRetryStats", (2, 1500), (4, 20000), pkg="./props/c09_hedge"), T("TestAttemptViewStable", (2, 400), (4, 6000))],
-        rule=COMPOSE_RULE + "at least one retry happened and at least one attempt was rejected before reaching the function (breaker, bulkhead or rate limiter). Observation points: function entry, every listener, fallback functions, completion events. Hedged executions (TestHedgedStats, from the C09 harness) count as non-trivial when at least two attempts overlapped.",
+    "C17": dict(pkg="./props/c17_stats", tests=[REGRESS(), T("TestStats", (8, 6000), (16, 120000)), T("TestHedgedStats", (4, 1000), (8, 15000), pkg="./props/c09_hedge"), T("TestHedgedRetryStats", (2, 1500), (4, 20000), pkg="./props/c09_hedge"), T("TestAttemptViewStable", (2, 400), (4, 6000)), T("TestHedgedRetryEvents", (2, 400), (4, 6000), pkg="./props/c16_events")],
+        rule=COMPOSE_RULE + "(TestHedgedRetryEvents, from the C16 harness: ElapsedAttemptTime of a parked attempt never goes backwards while other branches retry) at least one retry happened and at least one attempt was rejected before reaching the function (breaker, bulkhead or rate limiter). Observation points: function entry, every listener, fallback functions, completion events. Hedged executions (TestHedgedStats, from the C09 harness) count as non-trivial when at least two attempts overlapped.",
         assumptions=COMPOSE_ASSUMPTIONS + ["LastResult/LastError are not compared at observation points where the execution's context is already done (LastError then reports the context error by design)"]),
 })
 
@@ -100,8 +100,9 @@ PROPS["C02"] = dict(
     tests=[REGRESS(),
            T("TestRetrySequential", (6, 8000), (8, 200000)),
            T("TestRetryShared", (6, 1500), (6, 40000)),
-           T("TestMaxDurationReal", (4, 150), (4, 3000))],
-    rule=COMPOSE_RULE + "at least one retry happened (sequential: a retry policy alone or outermost/innermost of a stack of up to 3, maxRetries/maxAttempts in {0,1,2,3,5,unlimited}, overlapping handle and abort conditions, ReturnLastFailure, max duration unset / always exceeded / never); shared: 2..32 goroutines run different scripts through the same policy instances at once and each is compared with the sequential model of its own script, non-trivial when at least two of them retried with different scripts; real max duration (2..20 ms, unlimited retries): non-trivial when the function sampled an elapsed time beyond the max duration just before returning a failure",
+           T("TestMaxDurationReal", (4, 150), (4, 3000)),
+           T("TestHedgedRetryEvents", (2, 400), (4, 6000), pkg="./props/c16_events")],
+    rule=COMPOSE_RULE + "(TestHedgedRetryEvents, from the C16 harness: Hedge(Retry(fn)) with overlapping failing branches: OnRetry fires at most maxRetries times per execution) at least one retry happened (sequential: a retry policy alone or outermost/innermost of a stack of up to 3, maxRetries/maxAttempts in {0,1,2,3,5,unlimited}, overlapping handle and abort conditions, ReturnLastFailure, max duration unset / always exceeded / never); shared: 2..32 goroutines run different scripts through the same policy instances at once and each is compared with the sequential model of its own script, non-trivial when at least two of them retried with different scripts; real max duration (2..20 ms, unlimited retries): non-trivial when the function sampled an elapsed time beyond the max duration just before returning a failure",
     assumptions=COMPOSE_ASSUMPTIONS + ["real max-duration trials assert only the sound direction: no attempt after a failure that was returned with the max duration already elapsed"],
 )
 
